@@ -4,6 +4,7 @@ package control
 // deterministic scheduler, with a simulated dialer / PacketConn / bpf layer.
 
 import (
+	"strings"
 	"context"
 	"errors"
 	"fmt"
@@ -361,6 +362,9 @@ func epScenario(s *verifsim.Sim) {
 	type cliCtx struct {
 		cancel  context.CancelFunc
 		dialing bool
+		op      string        // what the client is doing
+		opStart time.Duration // since when
+		done    bool
 	}
 	clis := make([]*cliCtx, nClients)
 	done := 0
@@ -397,11 +401,12 @@ func epScenario(s *verifsim.Sim) {
 		cc := &cliCtx{}
 		clis[ci] = cc
 		verifsim.Go(fmt.Sprintf("client%d", ci), func() {
-			defer func() { done++ }()
-			for _, o := range plans[ci] {
+			defer func() { done++; cc.done = true }()
+			for oi, o := range plans[ci] {
 				if s.Failed() {
 					return
 				}
+				cc.op, cc.opStart = fmt.Sprintf("op %d (kind %d, key k%d)", oi, o.kind, o.key), s.Now()
 				key := w.keys[o.key]
 				switch o.kind {
 				case 3:
@@ -666,6 +671,18 @@ func epScenario(s *verifsim.Sim) {
 	if !s.RunUntil(allDone, 9) {
 		if !s.Failed() {
 			s.Probe("step-budget-exhausted")
+			// bounded liveness: with no dial hanging, no operation on the pool (get-or-create, tuple
+			// tracking, write, remove) may still be running 10 simulated minutes after it began
+			hanging := 0
+			for _, n := range w.inFlight {
+				hanging += n
+			}
+			for ci, cc := range clis {
+				if cc != nil && !cc.done && hanging == 0 && s.Now()-cc.opStart > 10*time.Minute && !strings.Contains(cc.op, "kind 3") {
+					s.Failf("client-op-wedged", "client%d has been inside %s since %v (now %v) with no dial in flight: the operation never returns; live tasks: %v", ci, cc.op, cc.opStart, s.Now(), s.LiveTasks("client"))
+					break
+				}
+			}
 		}
 		spawn("close", closePool)
 		s.Quiesce(func() bool { return envTask == 0 }, 0, time.Minute)
